@@ -27,6 +27,9 @@ pub enum ReqKind {
     Plain,
     /// the requestor supplies its own routing tag
     ForgedTag(&'static str),
+    /// headers whose names only differ from the routing tag's by case (CID, Cid, ...), all naming
+    /// another requestor: they are ordinary headers and must come back untouched
+    LookalikeTags(&'static str),
     ExtraHeader,
     NoHeaders,
     /// a well-formed frame that is not a Message (C11)
@@ -88,6 +91,11 @@ impl ReqRep {
             ReqKind::Plain => {}
             ReqKind::ForgedTag(t) => {
                 h.insert("cid".into(), t.to_string());
+            }
+            ReqKind::LookalikeTags(t) => {
+                for name in ["CID", "Cid", "cId", "ciD", "CId", "cID", "CiD"] {
+                    h.insert(name.into(), t.to_string());
+                }
             }
             ReqKind::ExtraHeader => {
                 h.insert("trace".into(), format!("t{j}{n}"));
